@@ -61,4 +61,13 @@ TABLE.update({
                 note="Trusted base: hivemc/comp.py, scen.py; covers the first N steps of each scenario."),
 })
 
+TABLE.update({
+    "C05": dict(engine="FSX", design_ref="DESIGN.md 4/C05", technique="explicit-state model checking of the implementation with a per-transition conservation monitor (induction over paths)",
+                text="On every transition of W-res/money (BEV on the power-curve branch, small BEV, ICE + gas pump, non-round tariffs changed by price rows, sessions at stations and through a base, cut short by instructions and full batteries) and of W-req (non-round fares): vehicle and station balances, energy gained/dispensed per type, price = energy x the tariff in force, and the station named in each charge event.",
+                note=_FSX_NOTE),
+    "C19": dict(engine="FSX", design_ref="DESIGN.md 4/C19", technique="explicit-state model checking of the implementation with the real file-writing handlers; log lines parsed back after every transition",
+                text="The same explorations with the real Reporter, EventfulHandler (event.log on tmpfs), StatsHandler and VehicleChargeEventsHandler installed: after every transition the appended lines parse as JSON and agree with the state deltas (odometer, energy gained, station load per station, summary counters, exactly one pickup/cancel line per resolved request, one drop-off line per completed trip, one charge line per charging step, waiting times within [0, timeout+step]).",
+                note=_FSX_NOTE),
+})
+
 NOT_APPLICABLE = {}
